@@ -61,8 +61,8 @@ type inst struct {
 }
 
 type stats struct {
-	Files, Probes, GoStmts, MapRanges, MapRangesSkipped, AccessProbes, ImportSwaps, ChanOps, ChanOpsSkipped, StateVars, NoteKeys, MapProbes, Selects int
-	Skipped                                                                        []string
+	Files, Probes, GoStmts, MapRanges, MapRangesSkipped, AccessProbes, ImportSwaps, ChanOps, ChanOpsSkipped, StateVars, NoteKeys, MapProbes, Selects, DeepReadProbes int
+	Skipped                                                                                                                                                          []string
 }
 
 func main() {
@@ -621,6 +621,7 @@ func (in *inst) mapProbes(s ast.Stmt) []ast.Stmt {
 		return ok
 	}
 	writes := map[*ast.IndexExpr]bool{}
+	var deep []ast.Expr
 	var visit func(n ast.Node) bool
 	visit = func(n ast.Node) bool {
 		switch x := n.(type) {
@@ -661,6 +662,13 @@ func (in *inst) mapProbes(s ast.Stmt) []ast.Stmt {
 					accs = append(accs, acc{x.Args[0], true})
 				}
 			}
+			if in.encoderCall(x) {
+				for _, a := range x.Args {
+					if _, lit := a.(*ast.BasicLit); !lit && sideEffectFree(a) && in.mayHoldMaps(a) && !in.declaredIn(a, s) {
+						deep = append(deep, a)
+					}
+				}
+			}
 		case *ast.IndexExpr:
 			if isMap(x.X) && sideEffectFree(x.X) {
 				accs = append(accs, acc{x.X, writes[x]})
@@ -676,10 +684,15 @@ func (in *inst) mapProbes(s ast.Stmt) []ast.Stmt {
 	default:
 		ast.Inspect(s, visit)
 	}
-	if len(accs) == 0 {
+	if len(accs) == 0 && len(deep) == 0 {
 		return nil
 	}
 	var out []ast.Stmt
+	for _, a := range deep {
+		in.stats.DeepReadProbes++
+		out = append(out, &ast.ExprStmt{X: &ast.CallExpr{Fun: sel("simrt", "MapDeepRead"), Args: []ast.Expr{
+			cloneExpr(a), &ast.BasicLit{Kind: token.INT, Value: strconv.Itoa(in.site(s.Pos()))}}}})
+	}
 	seen := map[string]int{}
 	for _, a := range accs {
 		key := types.ExprString(a.m)
@@ -700,6 +713,59 @@ func (in *inst) mapProbes(s ast.Stmt) []ast.Stmt {
 			cloneExpr(a.m), ast.NewIdent(w), &ast.BasicLit{Kind: token.INT, Value: strconv.Itoa(in.site(s.Pos()))}}}})
 	}
 	return out
+}
+
+// encoderCall: json.Marshal / json.MarshalIndent anywhere, fmt.Sprintf / fmt.Sprint in
+// package scope (the standard library then reads, by reflection, every map reachable
+// from the arguments - outside instrumented code).
+func (in *inst) encoderCall(c *ast.CallExpr) bool {
+	se, ok := c.Fun.(*ast.SelectorExpr)
+	if !ok {
+		return false
+	}
+	id, ok := se.X.(*ast.Ident)
+	if !ok {
+		return false
+	}
+	pn, ok := in.info.Uses[id].(*types.PkgName)
+	if !ok {
+		return false
+	}
+	switch pn.Imported().Path() {
+	case "encoding/json":
+		return se.Sel.Name == "Marshal" || se.Sel.Name == "MarshalIndent"
+	case "fmt":
+		return in.pkg.Name == "scope" && (se.Sel.Name == "Sprintf" || se.Sel.Name == "Sprint")
+	}
+	return false
+}
+
+// mayHoldMaps: the static type of e is an interface, a map, a slice or a pointer.
+func (in *inst) mayHoldMaps(e ast.Expr) bool {
+	tv, ok := in.info.Types[e]
+	if !ok || tv.Type == nil {
+		return false
+	}
+	switch tv.Type.Underlying().(type) {
+	case *types.Interface, *types.Map, *types.Slice, *types.Pointer:
+		return true
+	}
+	return false
+}
+
+// declaredIn: e mentions an identifier that statement s itself declares (if/switch/for
+// init): a probe placed before s could not name it.
+func (in *inst) declaredIn(e ast.Expr, s ast.Stmt) bool {
+	found := false
+	ast.Inspect(e, func(n ast.Node) bool {
+		if id, ok := n.(*ast.Ident); ok {
+			if o := in.info.Uses[id]; o != nil && o.Pos() >= s.Pos() && o.Pos() < s.End() {
+				found = true
+			}
+		}
+		return true
+	})
+	return found
 }
 
 func cloneExpr(e ast.Expr) ast.Expr {
@@ -1098,9 +1164,9 @@ func isSyncType(t types.Type) bool {
 // ---------------------------------------------------------------------------
 
 var swaps = map[string][2]string{
-	"sync":      {"simrt/simsync", "sync"},
-	"time":      {"simrt/simtime", "time"},
-	"math/rand": {"simrt/simrand", "rand"},
+	"sync":        {"simrt/simsync", "sync"},
+	"time":        {"simrt/simtime", "time"},
+	"math/rand":   {"simrt/simrand", "rand"},
 	"sync/atomic": {"simrt/simatomic", "atomic"},
 }
 
